@@ -66,3 +66,9 @@ func (stp *VerifStepper[Type]) BreakNoWait() {
 	go stp.dsc.breaker.Break()
 	<-stp.dsc.breaker.IsBreaked()
 }
+
+// VerifTiming reports the timeout and the ticker period a discipline created by New
+// actually works with.
+func (dsc *Discipline[Type]) VerifTiming() (time.Duration, time.Duration) {
+	return dsc.opts.Timeout, dsc.interruptInterval
+}
